@@ -678,7 +678,8 @@ def sweep_combo(args):
             continue
         witnesses.append(history_witness(name, configured, debug, canon, T, hist, got, want, key))
     after_settings = settings_snapshot()
-    probes = probe_outcomes()       # perturb-then-probe: the sweep above was the perturbation
+    hostile_perturbation()
+    probes = probe_outcomes()       # perturb-then-probe: the sweep above (and the hostile inputs) were the perturbation
     for k in diff_snap(before_settings, after_settings):
         witnesses.append({'key': 'settings:%s/%s' % (name, k), 'kind': 'settings', 'grader': name, 'configured': configured,
                           'debug': debug, 'setting': k, 'what': 'process-wide setting %s changed during the sweep' % k})
@@ -976,6 +977,26 @@ def world_factory(kind):
                 'single_nest': ([None], ['1,2;3,4', '3,4;1,2', '1,2;3'])}
         return graders, menu
 
+    def hostile():
+        """inputs that make the parser fail in unusual ways (very deep nesting of parentheses / brackets / function calls
+        around names, at several depths), next to ordinary inputs"""
+        deep = []
+        for d in (50, 60, 120, 250, 400):
+            nest = '(' * d + 'z' + ')' * d
+            # names, functions and suffixes before, inside and after the deep part
+            deep += ['(' * d + 'y' + ')' * d, 'sin(' * d + 'z' + ')' * d, '[' * d + 'y+w' + ']' * d,
+                     'y+w*' + nest, nest + '+y*w', 'sin(y)+cos(' + nest + ')', '[y,w,' + '[' * d + 'z' + ']' * d + ']',
+                     'y^' + nest, '2k+3%*' + nest, 'q(u)*' + nest]
+        graders = {
+            'h_f': FormulaGrader(answers='1', variables=['y', 'z']),
+            'h_m': MatrixGrader(answers='[1,2]', variables=['y']),
+            'h_n': NumericalGrader(answers='1'),
+            'h_sl': SingleListGrader(answers=['1', '2'], subgrader=NumericalGrader()),
+        }
+        menu = {'h_f': ([None], deep + ['1', '1+0*y', 'z']), 'h_m': ([None], deep[3:17] + ['[1,2]', 'y*[1,2]/y']),
+                'h_n': ([None], deep[13:30] + ['1', '2']), 'h_sl': ([None], [deep[3] + ',2', '1,' + deep[14], '1,2', '2,1'])}
+        return graders, menu
+
     def literals():
         """purely literal inputs (no variables, functions or suffixes) handed to graders whose options give the same text
         different meanings: negative powers, infinities, array dimension, shape-error handling"""
@@ -1052,6 +1073,9 @@ def world_factory(kind):
 
     def options():
         """rarely used options next to plain graders of the same family"""
+        # no sampled variables; instructor_vars name constants the answers use
+        n_ivar = NumericalGrader(answers='2*pi', instructor_vars=['pi'])
+        f_ivar = FormulaGrader(answers='c*e', user_constants={'c': 3}, instructor_vars=['c', 'e', 'i'])
         graders = {
             'f_plain': FormulaGrader(answers='2000'),
             'n_plain': NumericalGrader(answers='2000'),
@@ -1066,6 +1090,10 @@ def world_factory(kind):
                                      blacklist=['tan'], suppress_warnings=True),
             'f_over': FormulaGrader(answers='e+1', user_constants={'e': 5}, user_functions={'sin': np.cos},
                                     suppress_warnings=True),
+            'n_ivar': n_ivar, 'f_ivar': f_ivar,
+            'sl_ivar': SingleListGrader(answers=['2*pi', 'pi'], subgrader=n_ivar),
+            'l_ivar': ListGrader(answers=['2*pi', 'pi'], subgraders=n_ivar),
+            'l_ivar2': ListGrader(answers=['c*e', '2*pi'], subgraders=[f_ivar, n_ivar], ordered=True),
             's_opts': StringGrader(answers='Cat  Dog', case_sensitive=False, clean_spaces=False, strip=False, wrong_msg='no'),
             's_any': StringGrader(accept_any=True, min_length=3, min_words=2, explain_minimums='msg'),
             's_all': StringGrader(answers='catdog', strip_all=True, validation_pattern='[a-z ]+', invalid_msg='letters only'),
@@ -1092,6 +1120,11 @@ def world_factory(kind):
             'f_lists': ([None], ['sin(x)+a_{1}', 'a_{1}+sin(x)', 'sin(x)+a_{2}', 'cos(x)', 'tan(x)', 'x']),
             'f_black': ([None], ['x+c', 'x+2', 'x+pi', 'tan(x)']),
             'f_over': ([None], ['e+1', '6', 'sin(0)+5', 'cos(0)+5']),
+            'n_ivar': ([None], ['6.283185307', '3.141592654', '2*pi', '6.2831853+']),
+            'f_ivar': ([None], ['8.154845485', '3*e', '3', 'c']),
+            'sl_ivar': ([None], ['6.283185307,3.141592654', '3.141592654,6.283185307', '6.283185307', 'pi,2']),
+            'l_ivar': ([None], [['6.283185307', '3.141592654'], ['3.141592654', '6.283185307'], ['1', '2']]),
+            'l_ivar2': ([None], [['8.154845485', '6.283185307'], ['6.283185307', '8.154845485'], ['e', 'pi']]),
             's_opts': ([None], ['cat  dog', 'Cat  Dog', 'cat dog', ' cat  dog']),
             's_any': ([None, 'x'], ['a b c', 'ab', 'abc', '']),
             's_all': ([None], ['cat dog', 'catdog', 'cat1', 'c a t d o g']),
@@ -1130,7 +1163,7 @@ def world_factory(kind):
         return graders, menu
 
     return {'shared': shared, 'matrices': matrices, 'debugsub': debugsub, 'authorobjs': authorobjs, 'options': options,
-            'plain': plain, 'literals': literals}[kind]
+            'plain': plain, 'literals': literals, 'hostile': hostile}[kind]
 
 
 INFERRED_LINE = re.compile(r'<br/>\\nExpect value inferred to be .*?(?=<br/>\\n|</pre>)')
@@ -1246,6 +1279,9 @@ def mixed_violation(kind, calls):
 
 
 MIXED_CORPUS = [
+    ('options', [('n_ivar', None, '6.283185307'), ('n_ivar', None, '6.283185307')]),
+    ('options', [('sl_ivar', None, '6.283185307,3.141592654')]),
+    ('hostile', [('h_f', None, 'y+w*' + '(' * 120 + 'z' + ')' * 120), ('h_n', None, '1')]),
     ('debugsub', [('fgd', '1', '1'), ('list_fd', None, ['1', '2'])]),
     ('debugsub', [('list_fdd', None, ['1', '2']), ('list_fd', None, ['1', '2'])]),
     ('debugsub', [('fgd', '1', '1'), ('list_nest', None, ['1', '2', '3', '4'])]),
@@ -1263,8 +1299,8 @@ MIXED_CORPUS = [
 
 def random_mixed(ctx, res, rng):
     from mitxgraders.helpers.calc.math_array import MathArray
-    n_hist = {'shared': 40, 'matrices': 40, 'debugsub': 15, 'authorobjs': 40, 'options': 20, 'literals': 15} if ctx['tier'] == 'quick' else \
-        {'shared': 500, 'matrices': 500, 'debugsub': 200, 'authorobjs': 600, 'options': 300, 'literals': 300}
+    n_hist = {'shared': 40, 'matrices': 40, 'debugsub': 15, 'authorobjs': 40, 'options': 20, 'literals': 15, 'hostile': 8} if ctx['tier'] == 'quick' else \
+        {'shared': 500, 'matrices': 500, 'debugsub': 200, 'authorobjs': 600, 'options': 300, 'literals': 300, 'hostile': 60}
     total_calls = 0
     valid_cache = {}
     # corpus: minimised histories found earlier run first, on every run
@@ -1379,7 +1415,8 @@ def describe_object_change(o, before):
     return '%s changed' % (now[1] if len(now) > 1 else now[0],)
 
 
-PROBE_WORLDS = ('plain', 'literals', 'options', 'authorobjs', 'shared', 'matrices', 'debugsub', 'plain')
+PROBE_WORLDS = ('plain', 'hostile', 'literals', 'options', 'authorobjs', 'hostile', 'shared', 'matrices', 'debugsub', 'hostile',
+                'plain')
 
 
 def probe_key(pos, kind, n, s):
@@ -1401,6 +1438,35 @@ def reimport_library():
     for m in [m for m in sys.modules if m.split('.')[0] in ('mitxgraders', 'voluptuous')]:
         del sys.modules[m]
     importlib.import_module('mitxgraders')
+
+
+def probe_inputs(g, inputs, pos):
+    """the menu inputs, and for formula-type graders an equivalent text that no other stream and no other probe pass
+    ever parses (so that it is parsed for the first time right here, whatever was graded before)"""
+    from mitxgraders import FormulaGrader
+    short = [s for s in inputs if not (isinstance(s, str) and len(s) >= 80)]
+    long_ = [s for s in inputs if isinstance(s, str) and len(s) >= 80]
+    out = list(short)
+    inner = getattr(g, '_verif_inner', g)
+    if isinstance(inner, FormulaGrader):
+        out += ['(%s)+0*%d' % (s, 7 + pos) for s in short if isinstance(s, str) and '@' not in s]
+    # the long (hostile) inputs come last, so that whatever they leave behind meets the NEXT grader's first new text
+    return out + long_
+
+
+def hostile_perturbation():
+    """the last thing a perturbing batch does before it is probed: the hostile inputs, on freshly built graders"""
+    graders, menu = world_factory('hostile')()
+    n = 0
+    for name in sorted(graders):
+        for s in menu[name][1]:
+            core.guarded(graders[name], None, s)
+            n += 1
+    for name in sorted(graders):
+        for s in [x for x in menu[name][1] if len(x) >= 80]:
+            core.guarded(graders[name], None, s)
+            n += 1
+    return n
 
 
 def probe_outcomes(order='forward', only=None):
@@ -1446,7 +1512,7 @@ def probe_outcomes(order='forward', only=None):
                     worlds.clear()
                     reimport_library()
                     import numpy as np      # noqa
-                    inps = list(world(pos, kind)[1][n][1])
+                    inps = probe_inputs(world(pos, kind)[0][n], world(pos, kind)[1][n][1], pos)
                     for s in inps:
                         call(pos, kind, n, s)
                 worlds.clear()
@@ -1457,7 +1523,7 @@ def probe_outcomes(order='forward', only=None):
                 graders, menu, _ = world(pos, kind)
                 names = sorted(graders, reverse=rev)
                 for n in names:
-                    inps = list(menu[n][1])
+                    inps = probe_inputs(graders[n], menu[n][1], pos)
                     for s in (reversed(inps) if rev else inps):
                         call(pos, kind, n, s)
     finally:
@@ -1513,10 +1579,10 @@ def compare_probe_isolation(res, fwd, iso):
         procs = [(p, start_fresh_probe(only=[p, k])) for p in cands]
         for p, pr in procs:
             got, _ = finish_probe(pr)
-            if got and got.get(k) == fwd[k] and 'calls' not in w:
+            if got and k in got and got[k] != iso[k] and 'timeout' not in (got[k][0], iso[k][0]) and 'calls' not in w:
                 w['calls'] = [p, k]
                 w['what'] = ('in a fresh interpreter %s returns %s; in another fresh interpreter, right after %s, it returns %s'
-                             % (k, repr(iso[k])[:160], p, repr(fwd[k])[:160]))
+                             % (k, repr(iso[k])[:160], p if len(p) < 160 else p[:80] + '...' + p[-40:], repr(got[k])[:160]))
         res.witnesses.append(w)
     return len(diff)
 
@@ -1787,6 +1853,7 @@ def run(ctx):
             res.witnesses.append({'key': 'settings:run/%s' % k, 'kind': 'settings', 'setting': k,
                                   'what': 'process-wide setting %s is not what it was before this run constructed and called '
                                           'graders: %s' % (k, describe_setting_change(baseline.get(k), end_settings.get(k)))})
+        res.oracle_evals += hostile_perturbation()
         main_probes = probe_outcomes()
         results = pending.get()
     sweep_s = time.time() - t0
